@@ -35,7 +35,9 @@ import (
 	"google.golang.org/protobuf/types/dynamicpb"
 )
 
-func init() { Register("oneof", famOneof) }
+// "oneofr" is the same family under a second name: bin/check names the case files after the family, and the
+// run with build tag protoreflect (reflection slow path of package proto) must not share them.
+func init() { Register("oneof", famOneof); Register("oneofr", famOneof) }
 
 // ---------------------------------------------------------------- targets
 
@@ -532,8 +534,15 @@ func oneofHistory(c *Ctx, t *oneofTarget, nops int) {
 			f.Set(reflect.Zero(wt))
 			ins = append(ins, "T"+num)
 			c.Stat("op_struct_typednil")
-		case r < 16: // Merge from another message
-			src := t.mt.New()
+		case r < 16: // Merge from another message (sometimes of the other flavour: generated <-> dynamicpb)
+			srcT := t.mt
+			if c.Intn(3) == 0 {
+				if alt := oneofAltType(t); alt != nil {
+					srcT = alt
+					c.Stat("op_merge_cross_flavour")
+				}
+			}
+			src := srcT.New()
 			tok := "G-"
 			if c.Intn(5) != 0 {
 				v := oneofGenVal(c, src, fd)
@@ -561,6 +570,19 @@ func oneofHistory(c *Ctx, t *oneofTarget, nops int) {
 	obs = append(obs, oneofFinalDigest(t, m))
 	c.Case("oneof", "ops", ins, obs)
 	c.Stat("ops_" + t.flavour)
+}
+
+// the same descriptor through the other implementation (dynamicpb for generated types and back)
+func oneofAltType(t *oneofTarget) protoreflect.MessageType {
+	md := t.mt.Descriptor()
+	if t.repr != "dyn" {
+		return dynamicpb.NewMessageType(md)
+	}
+	mt, err := protoregistry.GlobalTypes.FindMessageByName(md.FullName())
+	if err != nil || mt.Descriptor() != md {
+		return nil
+	}
+	return mt
 }
 
 // ---------------------------------------------------------------- several members on the wire
